@@ -1,6 +1,8 @@
 import Firefly.Proof.AmlLex
 import Firefly.Proof.AmlNameRt
 import Firefly.Proof.AmlNsSpec
+import Firefly.Proof.AmlObjRt
+import Firefly.Proof.AmlDeclRt
 import Firefly.Model.AmlProg
 import Firefly.Model.AmlNs
 import Firefly.Gen.C11
@@ -18,8 +20,9 @@ current code for the six program shapes recorded as known findings.  It is decid
 program by the executable specification `AmlProg.namespaceOf` and the differential oracle of
 `./check C11` (`nsOf (tree of the real parser) = namespaceOf program`, plus model = implementation on
 the whole object pool).  What is proved here, for all inputs: the lexical round trips of integer
-constants, package lengths, name strings and strings (the encodings every declaration is made of), and the
-agreement of the facts this check was built against.
+constants, package lengths, name strings and strings (the encodings every declaration is made of), the
+object-level round trips (`parseSimpleArg` stores exactly the encoded constant / string / name path in the object it
+creates), and the agreement of the facts this check was built against.
 -/
 namespace Firefly.C11
 open Firefly.AmlLex Firefly.AmlProg Firefly.AmlNs
@@ -165,6 +168,98 @@ example : encode [.device 1 { segs := ["DEV0"] } [.name { segs := ["N000"] } (.i
 example : (namespaceOf [[.scope 1 { segs := ["_SB_"] } [.device 1 { segs := ["DEV0"] }
       [.name { carets := 1, segs := ["N000"] } (.int 1 1)]]]]).objs.contains (["_SB_", "N000"], "name:i1") = true := by
   decide
+
+/-! ## the objects carry the encoded values
+
+One level above the lexer: `parseSimpleArg` — the code that reads the constant, string and name arguments of every
+declaration (`Name(NAME, 0x12)`, `Method(NAME, flags)`, `OperationRegion(NAME, space, …)` …) — from any parser state
+`s` with a well-formed pool (`AmlParser.G.FP`) and room for one more object. -/
+
+/-- **Integer constants are stored with the encoded value** (`Obj.const_object_roundtrip`; `ByteData` / `WordData` /
+`DWordData` / `QWordData` with `n` = 1 / 2 / 4 / 8): if the `n` bytes at the reader are the little-endian encoding of `v`
+inside the package, `parseSimpleArg` succeeds, returns a NEW object (a slot that was free, now live, not yet attached)
+with the prefix opcode of that width and the value `v mod 256^n`, leaves the pool well-formed and advances the reader by
+exactly `n`. -/
+theorem const_object_roundtrip (d : Bytes) (s : AmlParser.PState) (h : AmlParser.G.FP d s)
+    (hsz : s.tree.pool.size < 4294967295) (argType n op : Nat)
+    (hat : (argType = Gen.C12.argTypeByteData ∧ n = 1 ∧ op = Gen.C12.opBytePrefix) ∨ (argType = Gen.C12.argTypeWordData ∧ n = 2 ∧ op = Gen.C12.opWordPrefix) ∨
+      (argType = Gen.C12.argTypeDwordData ∧ n = 4 ∧ op = Gen.C12.opDwordPrefix) ∨ (argType = Gen.C12.argTypeQwordData ∧ n = 8 ∧ op = Gen.C12.opQwordPrefix))
+    (v base pe : Nat) (hr : s.r = { offset := base, pkgEnd := pe })
+    (henc : ∀ i, i < n → d[base + i]? = (encConst v n)[i]?) (hfit : base + n ≤ pe) :
+    ∃ x s', AmlParser.parseSimpleArg d argType s = .ok ((some x, PRes.ok), s') ∧ AmlParser.G.FP d s' ∧
+      C13.live s.tree x = false ∧ C13.live s'.tree x = true ∧ C13.P s'.tree x = C13.INV ∧
+      (C13.slot s'.tree x).value = .u64 (v % 256 ^ n) ∧ (C13.slot s'.tree x).opcode = op ∧
+      s'.r = { offset := base + n, pkgEnd := pe } := by
+  obtain ⟨x, s', e, h', a1, a2, a3, a4, a5, a6, _⟩ :=
+    AmlParser.F.const_object_roundtrip h hsz argType n op hat v base pe hr henc hfit
+  exact ⟨x, s', e, h', a1, a2, a3, a4, a5, a6⟩
+
+/-- **Name paths are stored as written** (`Obj.name_object_roundtrip`): on the bytes of `encNameP n`, `parseSimpleArg
+(NameString)` succeeds and returns a NEW name-path object whose value is the `[]byte` that starts at the first byte of
+the name and covers exactly the encoded bytes (without the NullName terminator) — the path `connectNamedObjArgs`,
+`mergeScopeDirectives` and `relocateNamedObjects` later read is the path the program wrote. -/
+theorem name_object_roundtrip (d : Bytes) (hd : d.size + 1024 ≤ 4294967296) (s : AmlParser.PState) (h : AmlParser.G.FP d s)
+    (hsz : s.tree.pool.size < 4294967295) (n : NameP) (base pe : Nat) (hr : s.r = { offset := base, pkgEnd := pe })
+    (hpe : pe ≤ d.size) (hok : NameOK (n.segs.map segBytes))
+    (henc : ∀ i, i < (encNameP n).length → d[base + i]? = (encNameP n)[i]?) (hfit : base + (encNameP n).length ≤ pe) :
+    ∃ x s', AmlParser.parseSimpleArg d Gen.C12.argTypeNameString s = .ok ((some x, PRes.ok), s') ∧ AmlParser.G.FP d s' ∧
+      C13.live s.tree x = false ∧ C13.live s'.tree x = true ∧ C13.P s'.tree x = C13.INV ∧
+      (C13.slot s'.tree x).value = .bytes base ((encNameP n).length - (if n.segs = [] then 1 else 0)) ∧
+      (C13.slot s'.tree x).opcode = Gen.C12.opIntNamePath ∧ s'.r = { offset := base + (encNameP n).length, pkgEnd := pe } := by
+  obtain ⟨x, s', e, h', a1, a2, a3, a4, a5, a6, _⟩ :=
+    AmlParser.F.name_object_roundtrip hd h hsz n.root n.carets (n.segs.map segBytes) base pe hr hpe hok henc hfit
+  refine ⟨x, s', e, h', a1, a2, a3, ?_, a5, a6⟩
+  rw [a4]
+  have e1 : (n.segs.map segBytes = []) ↔ (n.segs = []) := List.map_eq_nil_iff
+  by_cases hq : n.segs = []
+  · rw [if_pos hq, if_pos (e1.mpr hq)]; rfl
+  · rw [if_neg hq, if_neg (fun hh => hq (e1.mp hh))]; rfl
+
+/-- **Strings are stored with the encoded value** (`Obj.string_object_roundtrip`): on the ASCII bytes of `str` and their
+terminator, `parseSimpleArg(String)` succeeds and returns a NEW object with the string opcode whose value is the `[]byte`
+covering exactly `str`. -/
+theorem string_object_roundtrip (d : Bytes) (s : AmlParser.PState) (h : AmlParser.G.FP d s)
+    (hsz : s.tree.pool.size < 4294967295) (str : List UInt8) (base pe : Nat) (hr : s.r = { offset := base, pkgEnd := pe })
+    (hpe : pe ≤ d.size) (hascii : ∀ b ∈ str, 1 ≤ b ∧ b ≤ 0x7f)
+    (henc : ∀ i, i < (encString str).length → d[base + i]? = (encString str)[i]?) (hfit : base + (encString str).length ≤ pe) :
+    ∃ x s', AmlParser.parseSimpleArg d Gen.C12.argTypeString s = .ok ((some x, PRes.ok), s') ∧ AmlParser.G.FP d s' ∧
+      C13.live s.tree x = false ∧ C13.live s'.tree x = true ∧ C13.P s'.tree x = C13.INV ∧
+      (C13.slot s'.tree x).value = .bytes base str.length ∧ (C13.slot s'.tree x).opcode = Gen.C12.opStringPrefix ∧
+      s'.r = { offset := base + (encString str).length, pkgEnd := pe } := by
+  obtain ⟨x, s', e, h', a1, a2, a3, a4, a5, a6, _⟩ :=
+    AmlParser.F.string_object_roundtrip h hsz str base pe hr hpe hascii henc hfit
+  exact ⟨x, s', e, h', a1, a2, a3, a4, a5, a6⟩
+
+/-- **A `Name` declaration creates the named object under the current scope** (`Decl.name_decl_first_pass`): with the
+reader at the bytes `08 <NameString>` of a `Name(…)` declaration inside the current package, the first pass
+(`parseNextObject` in skip mode) succeeds; it creates a NEW `Name` object `x` as the LAST child of the innermost open
+scope block (`topOf s`) and a NEW name-path object `c` as its only argument, whose value is the `[]byte` covering exactly
+the path the program wrote; the reader stands right behind the name (the data object is parsed as the next object and
+attached by `connectNamedObjArgs`, C12 item (9)), the scope stack is unchanged, every older object keeps its parent and
+the pool stays well-formed. -/
+theorem name_decl_first_pass (d : Bytes) (hd : d.size + 1024 ≤ 4294967296) (f : Nat) (s : AmlParser.PState)
+    (h : AmlParser.G.FP d s) (hsk : s.allBlocks = false) (hne : s.scopeStack.size ≠ 0)
+    (hsz : s.tree.pool.size + 2 < C13.INV) (n : NameP) (base pe : Nat) (hr : s.r = { offset := base, pkgEnd := pe })
+    (hpe : pe ≤ d.size) (hok : NameOK (n.segs.map segBytes)) (hop : d[base]? = some 0x08)
+    (henc : ∀ i, i < (encNameP n).length → d[base + 1 + i]? = (encNameP n)[i]?)
+    (hfit : base + 1 + (encNameP n).length ≤ pe) :
+    ∃ s' x c, AmlParser.parseNextObject d (f + 5) s = .ok (PRes.ok, s') ∧ AmlParser.G.FP d s' ∧
+      C13.live s.tree x = false ∧ C13.live s.tree c = false ∧ C13.live s'.tree x = true ∧ C13.live s'.tree c = true ∧
+      (C13.slot s'.tree x).opcode = 8 ∧ C13.P s'.tree x = AmlParser.S.topOf s ∧
+      C13.La s'.tree (AmlParser.S.topOf s) = x ∧ C13.Fi s'.tree x = c ∧ C13.La s'.tree x = c ∧ C13.P s'.tree c = x ∧
+      (C13.slot s'.tree c).opcode = Gen.C12.opIntNamePath ∧
+      (C13.slot s'.tree c).value = .bytes (base + 1) ((encNameP n).length - (if n.segs = [] then 1 else 0)) ∧
+      s'.r = { offset := base + 1 + (encNameP n).length, pkgEnd := pe } ∧ s'.scopeStack = s.scopeStack ∧
+      (∀ y, C13.live s.tree y = true → C13.live s'.tree y = true ∧ C13.P s'.tree y = C13.P s.tree y) := by
+  obtain ⟨a, s', e, ha, x, c, h', a1, a2, a3, a4, a5, a6, a7, a8, a9, a10, a11, a12, a13, a14, a15⟩ :=
+    AmlParser.F.name_decl_first_pass hd f h hsk hne hsz n.root n.carets (n.segs.map segBytes) base pe hr hpe hok hop henc hfit
+  subst ha
+  refine ⟨s', x, c, e, h', a1, a2, a3, a4, a5, a6, a7, a8, a9, a10, a11, ?_, a13, a14, a15⟩
+  rw [a12]
+  have e1 : (n.segs.map segBytes = []) ↔ (n.segs = []) := List.map_eq_nil_iff
+  by_cases hq : n.segs = []
+  · rw [if_pos hq, if_pos (e1.mpr hq)]; rfl
+  · rw [if_neg hq, if_neg (fun hh => hq (e1.mp hh))]; rfl
 
 /-- **The specification's namespace is a tree, for every program** (`Spec.namespace_is_tree`): whatever tables are
 loaded — well-scoped or not — `namespaceOf` never declares a path twice, and every declared path with more than one
